@@ -3,7 +3,7 @@ Return trees (`RTree`), their materialisation by phis (`RTree.mat`, the model
 of ssa.Block.ReturnBinding) and the merge of the bindings of two branches
 (`mergeE` / `joinN`, the model of ssa.Bindings.Merge).
 -/
-import MpcVerif.Proofs.MpclSsaExpr
+import MpcVerif.Proofs.MpclSsaAgg
 
 namespace Mpc.Mpcl.Ssa
 open Mpc.Mpcl
@@ -18,7 +18,7 @@ def RTree.Below (k : Nat) : RTree → Prop
 /-- The values at the leaves fit their widths. -/
 def TreeBd (st : Nat → Nat) : RTree → Prop
   | .fall => True
-  | .ret rs => ∀ p ∈ rs, st p.1 < 2 ^ p.2
+  | .ret rs => ∀ p ∈ rs, st p.1 < 2 ^ p.2.bits
   | .br _ t f => TreeBd st t ∧ TreeBd st f
 
 theorem RTree.Below.mono {k k' : Nat} : ∀ {t : RTree}, t.Below k → k ≤ k' → t.Below k'
@@ -27,7 +27,7 @@ theorem RTree.Below.mono {k k' : Nat} : ∀ {t : RTree}, t.Below k → k ≤ k' 
   | .br _ _ _, h, hk => ⟨Nat.lt_of_lt_of_le h.1 hk, h.2.1.mono hk, h.2.2.mono hk⟩
 
 theorem map_congr_frame {k : Nat} {st st' : Nat → Nat} (hf : Frame k st st') :
-    ∀ (rs : List (Nat × Nat)), (∀ p ∈ rs, p.1 < k) →
+    ∀ (rs : List (Nat × Ty)), (∀ p ∈ rs, p.1 < k) →
       rs.map (fun p => (st' p.1, p.2)) = rs.map (fun p => (st p.1, p.2))
   | [], _ => rfl
   | p :: r, h => by
@@ -78,15 +78,15 @@ theorem phi_step (st : Nat → Nat) (c i j w k : Nat) :
   apply ssaSteps_one_mk
   simp [argVal, SStore.get, evalOp]
 
-theorem matPhis_sound (c : Nat) : ∀ (rt rf : List (Nat × Nat)) (k : Nat) (rs : List (Nat × Nat))
+theorem matPhis_sound (c : Nat) : ∀ (rt rf : List (Nat × Ty)) (k : Nat) (rs : List (Nat × Ty))
     (code : List SInstr) (k' : Nat) (st : Nat → Nat), matPhis c rt rf k = some (rs, code, k') →
     c < k → (∀ p ∈ rt, p.1 < k) → (∀ p ∈ rf, p.1 < k) →
-    (∀ p ∈ rt, st p.1 < 2 ^ p.2) → (∀ p ∈ rf, st p.1 < 2 ^ p.2) →
+    (∀ p ∈ rt, st p.1 < 2 ^ p.2.bits) → (∀ p ∈ rf, st p.1 < 2 ^ p.2.bits) →
     k ≤ k' ∧ NoRet code ∧ (∀ p ∈ rs, k ≤ p.1 ∧ p.1 < k') ∧
     ∃ st', ssaSteps code st = some st' ∧ Frame k st st' ∧
       rs.map (fun p => (st' p.1, p.2)) =
         (if st c % 2 = 1 then rt else rf).map (fun p => (st p.1, p.2)) ∧
-      (∀ p ∈ rs, st' p.1 < 2 ^ p.2)
+      (∀ p ∈ rs, st' p.1 < 2 ^ p.2.bits)
   | [], [], k, rs, code, k', st, h, _, _, _, _, _ => by
     simp only [matPhis, Option.some.injEq, Prod.mk.injEq] at h
     obtain ⟨h1, h2, h3⟩ := h
@@ -95,11 +95,13 @@ theorem matPhis_sound (c : Nat) : ∀ (rt rf : List (Nat × Nat)) (k : Nat) (rs 
       (fun p hp => by cases hp)⟩
   | [], _ :: _, _, _, _, _, _, h, _, _, _, _, _ => by simp [matPhis] at h
   | _ :: _, [], _, _, _, _, _, h, _, _, _, _, _ => by simp [matPhis] at h
-  | (i, w) :: r, (j, w') :: r', k, rs, code, k', st, h, hc, ht, hf, hbt, hbf => by
+  | (i, tw) :: r, (j, tw') :: r', k, rs, code, k', st, h, hc, ht, hf, hbt, hbf => by
     simp only [matPhis] at h
     split at h
     · rename_i hw
-      subst hw
+      have hw' := tyEq_eq hw
+      subst hw'
+      generalize hwdef : tw.bits = w at *
       cases hm : matPhis c r r' (k + 1) with
       | none => simp [hm] at h
       | some q =>
@@ -110,8 +112,8 @@ theorem matPhis_sound (c : Nat) : ∀ (rt rf : List (Nat × Nat)) (k : Nat) (rs 
         let st1 : Nat → Nat := fun x => if x = k then (if st c % 2 = 1 then st i else st j) % 2 ^ w else st x
         have hst1 : ssaSteps [⟨.phi, [.var c 1, .var i w, .var j w], some (k, w)⟩] st = some st1 := phi_step st c i j w k
         have hfr1 : Frame k st st1 := Frame_set (Nat.le_refl _)
-        have hti : i < k := ht (i, w) (by simp)
-        have hfj : j < k := hf (j, w) (by simp)
+        have hti : i < k := ht (i, tw) (by simp)
+        have hfj : j < k := hf (j, tw) (by simp)
         obtain ⟨hk, hnr, hrs, st2, hrun2, hfr2, hmap, hbd⟩ :=
           matPhis_sound c r r' (k + 1) rs2 code2 k2 st1 hm (by omega)
             (fun p hp => by have := ht p (List.mem_cons_of_mem _ hp); omega)
@@ -138,8 +140,8 @@ theorem matPhis_sound (c : Nat) : ∀ (rt rf : List (Nat × Nat)) (k : Nat) (rs 
         · exact hfr1.trans hfr2 (by omega)
         · have hc1 : st1 c = st c := hfr1 c hc
           simp only [List.map_cons, hst2k, hmap, hc1]
-          have hbi : st i < 2 ^ w := hbt (i, w) (by simp)
-          have hbj : st j < 2 ^ w := hbf (j, w) (by simp)
+          have hbi : st i < 2 ^ w := by have := hbt (i, tw) (by simp); simpa [hwdef] using this
+          have hbj : st j < 2 ^ w := by have := hbf (j, tw) (by simp); simpa [hwdef] using this
           by_cases hcc : st c % 2 = 1
           · simp only [hcc, if_true, List.map_cons, Nat.mod_eq_of_lt hbi]
             congr 1
@@ -149,17 +151,17 @@ theorem matPhis_sound (c : Nat) : ∀ (rt rf : List (Nat × Nat)) (k : Nat) (rs 
             exact map_congr_frame hfr1 r' (fun p hp => hf p (List.mem_cons_of_mem _ hp))
         · intro p hp
           rcases List.mem_cons.1 hp with e | e
-          · subst e; simp only; rw [hst2k]; exact Nat.mod_lt _ (two_pow_pos _)
+          · subst e; simp only [hwdef]; rw [hst2k]; exact Nat.mod_lt _ (two_pow_pos _)
           · exact hbd p e
     · cases h
 
 /-- Materialising a tree without `fall` leaves: the phis are total and select
 the leaf the store selects. -/
-theorem mat_sound : ∀ (t : RTree) (k : Nat) (rs : List (Nat × Nat)) (code : List SInstr) (k' : Nat)
+theorem mat_sound : ∀ (t : RTree) (k : Nat) (rs : List (Nat × Ty)) (code : List SInstr) (k' : Nat)
     (st : Nat → Nat), t.mat k = some (rs, code, k') → t.Below k → TreeBd st t →
     k ≤ k' ∧ NoRet code ∧ (∀ p ∈ rs, p.1 < k') ∧
     ∃ st' vals, ssaSteps code st = some st' ∧ Frame k st st' ∧ t.eval st = some vals ∧
-      rs.map (fun p => (st' p.1, p.2)) = vals ∧ (∀ p ∈ rs, st' p.1 < 2 ^ p.2)
+      rs.map (fun p => (st' p.1, p.2)) = vals ∧ (∀ p ∈ rs, st' p.1 < 2 ^ p.2.bits)
   | .fall, _, _, _, _, _, h, _, _ => by simp [RTree.mat] at h
   | .ret rs0, k, rs, code, k', st, h, hb, hbd => by
     simp only [RTree.mat, Option.some.injEq, Prod.mk.injEq] at h
@@ -189,7 +191,7 @@ theorem mat_sound : ∀ (t : RTree) (k : Nat) (rs : List (Nat × Nat)) (code : L
             mat_sound t k rt ct k1 st hmt hb.2.1 hbd.1
           obtain ⟨hk2, hnr2, hrf, st2, v2, hrun2, hfr2, hev2, hmap2, hbd2⟩ :=
             mat_sound f k1 rf cf k2 st1 hmf (hb.2.2.mono hk1) (TreeBd.frame hfr1 hb.2.2 hbd.2)
-          have hbd1' : ∀ p ∈ rt, st2 p.1 < 2 ^ p.2 := fun p hp => by rw [hfr2 p.1 (hrt p hp)]; exact hbd1 p hp
+          have hbd1' : ∀ p ∈ rt, st2 p.1 < 2 ^ p.2.bits := fun p hp => by rw [hfr2 p.1 (hrt p hp)]; exact hbd1 p hp
           obtain ⟨hk3, hnr3, hrs3, st3, hrun3, hfr3, hmap3, hbd3⟩ :=
             matPhis_sound c rt rf k2 rs3 cp k3 st2 hmp (by have := hb.1; omega)
               (fun p hp => by have := hrt p hp; omega) hrf hbd1' hbd2
@@ -207,7 +209,7 @@ theorem mat_sound : ∀ (t : RTree) (k : Nat) (rs : List (Nat × Nat)) (code : L
 /-! ### Merging bindings -/
 
 theorem mergeB_sound (c : Nat) (b b' : Bind) (k : Nat) (b2 : Bind) (code : List SInstr) (k' : Nat)
-    (h : mergeB c b b' k = some (b2, code, k')) (hc : c < k) (hb : BelowB k b) (hb' : BelowB k b') :
+    (h : mergeB c b b' k = some (b2, code, k')) (_hc : c < k) (hb : BelowB k b) (hb' : BelowB k b') :
     k ≤ k' ∧ NoRet code ∧ BelowB k' b2 ∧ ∀ st, ∃ st', ssaSteps code st = some st' ∧ Frame k st st' ∧
       (st c % 2 = 1 → ∀ v, BindRel st b v → BindRel st' b2 v) ∧
       (st c % 2 ≠ 1 → ∀ v, BindRel st b' v → BindRel st' b2 v) := by
@@ -226,22 +228,17 @@ theorem mergeB_sound (c : Nat) (b b' : Bind) (k : Nat) (b2 : Bind) (code : List 
           obtain ⟨h1, h2, h3⟩ := h
           subst h1; subst h2; subst h3
           exact ⟨Nat.le_refl _, NoRet_nil, hb, fun st => ⟨st, rfl, Frame.refl _ _, fun _ v hv => hv, fun _ v hv => hv⟩⟩
-        · cases hw : sbits t with
-          | none => simp [hw] at h
-          | some w =>
-            simp only [hw, Option.some.injEq, Prod.mk.injEq] at h
-            obtain ⟨h1, h2, h3⟩ := h
-            subst h1; subst h2; subst h3
-            refine ⟨by omega, NoRet_one (by simp), by simp [BelowB], fun st => ?_⟩
-            refine ⟨_, phi_step st c i j w k, Frame_set (Nat.le_refl _), ?_, ?_⟩
-            · intro hcc v hv
-              obtain ⟨w', hw', hlt, hv'⟩ := hv
-              rw [hw] at hw'; cases hw'
-              exact ⟨w, hw, by simp [hcc, Nat.mod_lt _ (two_pow_pos _)], by simp [hcc, Nat.mod_eq_of_lt hlt, hv']⟩
-            · intro hcc v hv
-              obtain ⟨w', hw', hlt, hv'⟩ := hv
-              rw [hw] at hw'; cases hw'
-              exact ⟨w, hw, by simp [hcc, Nat.mod_lt _ (two_pow_pos _)], by simp [hcc, Nat.mod_eq_of_lt hlt, hv']⟩
+        · simp only [Option.some.injEq, Prod.mk.injEq] at h
+          obtain ⟨h1, h2, h3⟩ := h
+          subst h1; subst h2; subst h3
+          refine ⟨by omega, NoRet_one (by simp), by simp [BelowB], fun st => ?_⟩
+          refine ⟨_, phi_step st c i j t.bits k, Frame_set (Nat.le_refl _), ?_, ?_⟩
+          · intro hcc v hv
+            obtain ⟨hlt, hv'⟩ := hv
+            exact ⟨by simp [hcc, Nat.mod_lt _ (two_pow_pos _)], by simp [hcc, Nat.mod_eq_of_lt hlt, hv']⟩
+          · intro hcc v hv
+            obtain ⟨hlt, hv'⟩ := hv
+            exact ⟨by simp [hcc, Nat.mod_lt _ (two_pow_pos _)], by simp [hcc, Nat.mod_eq_of_lt hlt, hv']⟩
       · cases h
     | konst m => simp [mergeB] at h
   | konst n =>
